@@ -142,7 +142,8 @@ def check_graph(n, edges, order, acc, tier):
         nontriv = 1 if (edges and 0 < len(X) < n) else 0
         # reachability
         exp = set(X) | set(j for i in X for j in range(n) if r[i][j])
-        for Xarg in (set(X), sorted(X), tuple(sorted(X, reverse=True))):
+        dup = sorted(X) + sorted(X)[:1] * 2 + sorted(X)[-1:]
+        for Xarg in (set(X), sorted(X), tuple(sorted(X, reverse=True)), dup, tuple(dup[::-1]) * 2):
             xa = Xarg.copy() if isinstance(Xarg, set) else list(Xarg)
             res = call(G.get_reachable_set_from, Xarg)
             acc.ev(1, nontriv)
@@ -179,6 +180,53 @@ def check_graph(n, edges, order, acc, tier):
     after = snap(G)
     if after != before or dict((v, id(G._next[v])) for v in G._next) != ids_before:
         bad('G-modified', None, before, after)
+
+
+NODE_NAMES = {
+    'frozensets': lambda i: frozenset([i]) if i % 2 else frozenset([i, 'x']),
+    'mixed': lambda i: (0, 'a', (1, 2), None, 2.5)[i],
+    'tuples-of-sets': lambda i: (frozenset([i]), 'n'),
+    'strings': lambda i: ('', 'b', 'Aa', 'z_', 'é')[i],
+}
+
+
+def check_named(n, edges, scheme, acc):
+    """The same operations on nodes that are only partially ordered / of mixed types."""
+    nm = NODE_NAMES[scheme]
+    names = [nm(i) for i in range(n)]
+    G = DiGraph(V=list(names), E=[(names[a], names[b]) for (a, b) in edges])
+    inv = dict((repr(x), i) for i, x in enumerate(names))
+    case = {'n': n, 'edges': [list(e) for e in edges], 'order': list(range(n)), 'names': scheme}
+
+    def back(H):
+        return (sorted(inv[repr(v)] for v in H._next),
+                sorted((inv[repr(s)], inv[repr(d)]) for s in H._next for d in H._next[s]))
+    eset = set(edges)
+    r = call(G.get_reversed_graph)
+    acc.ev(1, 1 if edges else 0)
+    exp = (list(range(n)), sorted((d, s) for (s, d) in eset))
+    if r[0] != 'ok' or back(r[1]) != exp:
+        acc.violation('reversed-named', case, exp, r[1:] if r[0] != 'ok' else back(r[1]))
+    else:
+        r2 = call(r[1].get_reversed_graph)
+        if r2[0] != 'ok' or back(r2[1]) != (list(range(n)), sorted(eset)):
+            acc.violation('reversed-twice-named', case, sorted(eset), r2[1:] if r2[0] != 'ok' else back(r2[1]))
+    rc = closure(n, edges)
+    for k in range(n + 1):
+        for X in itertools.combinations(range(n), k):
+            exp = set(X) | set(j for i in X for j in range(n) if rc[i][j])
+            r = call(G.get_reachable_set_from, [names[i] for i in X])
+            acc.ev(1, 1 if edges and 0 < len(X) < n else 0)
+            got = None if r[0] != 'ok' else set(inv[repr(v)] for v in r[1])
+            if got != exp:
+                acc.violation('reach-named', dict(case, X=list(X)), sorted(exp), r[1:] if r[0] != 'ok' else sorted(got))
+            r = call(G.get_subgraph, set(names[i] for i in X))
+            exps = (sorted(X), sorted((s, d) for (s, d) in eset if s in X and d in X))
+            if r[0] != 'ok' or back(r[1]) != exps:
+                acc.violation('subgraph-named', dict(case, X=list(X)), exps, r[1:] if r[0] != 'ok' else back(r[1]))
+    r = call(G.clone)
+    if r[0] != 'ok' or back(r[1]) != (list(range(n)), sorted(eset)):
+        acc.violation('clone-named', case, sorted(eset), r[1:] if r[0] != 'ok' else back(r[1]))
 
 
 def orders_for(n, tier):
@@ -313,6 +361,22 @@ def run_shard(shard, tier, seed, acc):
             for edges in spaces.digraphs(n):
                 for order in itertools.permutations(range(n)):
                     check_graph(n, edges, order, acc, tier)
+                for scheme in sorted(NODE_NAMES):
+                    check_named(n, edges, scheme, acc)
+        # long simple paths and rings (work-list must not recurse)
+        for n in (1500, 4000):
+            for shape in ('path', 'ring'):
+                E = [(i, i + 1) for i in range(n - 1)] + ([(n - 1, 0)] if shape == 'ring' else [])
+                G = DiGraph(V=range(n), E=E)
+                r = call(G.get_reachable_set_from, [0])
+                acc.ev(1, 1)
+                if r[0] != 'ok' or r[1] != set(range(n)):
+                    acc.violation('reach-long-' + shape, {'n': n, 'edges': shape, 'order': [], 'long': True}, n,
+                                  r[1:] if r[0] != 'ok' else len(r[1]))
+                r = call(lambda: G.get_reversed_graph().get_reachable_set_from([n - 1]))
+                if r[0] != 'ok' or r[1] != set(range(n)):
+                    acc.violation('reach-long-reversed-' + shape, {'n': n, 'edges': shape, 'order': [], 'long': True},
+                                  n, r[1:] if r[0] != 'ok' else len(r[1]))
         acc.sample({'n': 3, 'edges': [[0, 1], [1, 2], [2, 1]], 'X': [0], 'ops':
                     ['reach', 'reversed', 'reversed twice', 'subgraph', 'clone+mutations']})
         return
@@ -330,6 +394,12 @@ def replay(art):
     from ..runner import Acc
     c = art['case']
     acc = Acc()
+    if c.get('long'):
+        run_shard(['small'], 'quick', 0, acc)
+        return {'violates': any(v['kind'].startswith('reach-long') for v in acc.d['violations'])}
+    if c.get('names'):
+        check_named(c['n'], [tuple(e) for e in c['edges']], c['names'], acc)
+        return {'violates': acc.d['nviol'] > 0, 'detail': acc.d['violations'][:1]}
     if 'history' in c:
         run_history((c['init'][0], tuple(tuple(e) for e in c['init'][1])),
                     tuple(tuple(tuple(x) if isinstance(x, list) else x for x in o) for o in c['history']), acc)
